@@ -23,6 +23,7 @@
 -/
 import Y0.Lemmas.SemPos
 import Y0.Lemmas.CanonTotal
+import Y0.Lemmas.CanonDefault
 
 namespace Y0
 
@@ -68,6 +69,19 @@ denominators do not vanish, canonicalisation returns an expression (no `KeyError
 theorem canon_total (hF : ProbFamily env) {o : List Var} {e : Expr} (hws : WellScoped e = true)
     (hcov : Covers (levelOf o) e) (hz : DenNZ env σ' e) : ∃ e', canon o e = .ok e' :=
   canonL_total hF e hws hcov hz
+
+/-- the default ordering (`ordering=None`: all variables of the expression, sorted) always covers the expression, so the
+public entry point called without an ordering never raises `KeyError`: on a well-scoped expression whose denominators do
+not vanish it returns a canonical form -/
+theorem canonicalize_default_total (hF : ProbFamily env) {e : Expr} (hws : WellScoped e = true) (hz : DenNZ env σ' e) :
+    ∃ e', canonicalize e none = .ok e' :=
+  canonL_total hF e hws (covers_default e) hz
+
+/-- the canonical form does not depend on WHICH covering ordering is passed (the canonicaliser only consults the name order
+that `ensure_ordering` re-establishes), so `canon_den` for one admissible ordering is `canon_den` for all of them -/
+theorem canon_ordering_independent {o o' : List Var} {e a : Expr} (hc : Covers (levelOf (upgradeOrdering o')) e)
+    (h : canonicalize e (some o) = .ok a) : canonicalize e (some o') = .ok a :=
+  canonL_congr (nameMonotone_levelOf o) (nameMonotone_levelOf o') e a hc h
 
 /-- the three error branches, exhibited (they are the only ones: `canon_total`) -/
 example : canon [Var.plain 0] (.prob none [Var.plain 0, Var.plain 1] []) = .error (.internal "KeyError") := by rfl
